@@ -37,6 +37,8 @@ def run(ctx):
     from spec import cqlcodec as S
     from spec import frames as F
     import os
+    import io
+    from cassandra.metadata import Metadata
     from cassandra.column_encryption.policies import AES256ColumnEncryptionPolicy
     from cassandra.policies import ColDesc
     from cassandra.query import PreparedStatement, BoundStatement, UNSET_VALUE
@@ -45,7 +47,7 @@ def run(ctx):
 
     rng = ctx.rng
     ctx.count("spec_selfcheck_cases", S.selfcheck())
-    ctx.rule = ("case = (table of 1-5 columns of the 20 scalar types, each encrypted with its own 256-bit key with p=0.6, policy IV fixed or random, each column registered before prepare / between prepare and the first bind / between two binds, "
+    ctx.rule = ("case = (statement with 1-5 bind markers over 1-3 (keyspace, table) pairs (same-named columns in different tables, grouped or interleaved; PreparedStatement built directly or from a decoded PREPARED body with/without the global table spec), columns of the 20 scalar types, each encrypted with its own 256-bit key with p=0.6, policy IV fixed or random, each column registered before prepare / between prepare and the first bind / between two binds, "
                 "1-4 rows of boundary-pool values, values re-reading the byte image of another cell of the result as their own type (p=0.35), None (p=0.2) / UNSET (p=0.05 at v4+), bound positionally or by name, protocol 3-5, "
                 "result with inline metadata or NO_METADATA + prepared result metadata); distinct by (types, encrypted flags, values, pv); "
                 "non-trivial = at least one encrypted column")
@@ -79,9 +81,21 @@ def run(ctx):
             ctx.note("stopped by time budget after %d cases" % it)
             break
         pv = rng.choice([3, 4, 4, 5])
-        ks, table = rng.choice(['ks1', 'Ks']), rng.choice(['t', 'accounts'])
-        ncols = rng.randint(1, 5)
-        names = rng.sample(NAMES, ncols)
+        # the bind markers of one prepared statement belong to 1-3 (keyspace, table) pairs (a prepared multi-table BATCH has markers
+        # of several tables); with several tables the column names come from a small pool, so that same-named columns occur in
+        # different tables and only some of them are registered with the policy
+        ntab = rng.choice([1, 1, 1, 2, 2, 3])
+        tabs = rng.sample([(k, tb) for k in ('ks1', 'Ks') for tb in ('t', 'accounts', 'users')], ntab)
+        pool = NAMES if ntab == 1 else rng.sample(NAMES, 3)
+        pairs = rng.sample([(ti, nm) for ti in range(ntab) for nm in pool], min(rng.randint(1, 5), ntab * len(pool)))
+        if rng.random() < 0.5:
+            pairs.sort(key=lambda pr: pr[0])          # markers grouped by table, or interleaved
+        ncols = len(pairs)
+        col_tab = [tabs[ti] for ti, _ in pairs]
+        names = [nm for _, nm in pairs]
+        cds = [ColDesc(kt[0], kt[1], nm) for kt, nm in zip(col_tab, names)]
+        ks, table = col_tab[0]
+        several_tables = len(set(col_tab)) > 1
         types = [(rng.choice(TYPES),) for _ in range(ncols)]
         enc_flags = [rng.random() < 0.6 for _ in range(ncols)]
         if rng.random() < 0.5 and not any(enc_flags):
@@ -92,7 +106,7 @@ def run(ctx):
         # when each encrypted column is registered with the (shared, live) policy: before the statement is prepared, or after it -
         # just before binding row r (r = 0: between prepare and the first bind; r > 0: between two binds of the same statement)
         reg_at = [(-1 if rng.random() < 0.6 else rng.randrange(nrows)) if e else None for e in enc_flags]
-        wit0 = {"pv": pv, "columns": [(nm, t[0], "encrypted" if e else "plain") for nm, t, e in zip(names, types, enc_flags)],
+        wit0 = {"pv": pv, "columns": [("%s.%s.%s" % tuple(cd), t[0], "encrypted" if e else "plain") for cd, t, e in zip(cds, types, enc_flags)],
                 "registered_before_row": reg_at}
         try:
             policy = AES256ColumnEncryptionPolicy(iv=iv) if iv is not None else AES256ColumnEncryptionPolicy()
@@ -100,27 +114,44 @@ def run(ctx):
             # keys come from a per-table pool of 1..ncols keys: one key per column, one key for the whole table (the usual set-up)
             # and everything in between
             key_pool = [bytes(rng.getrandbits(8) for _ in range(32)) for _ in range(rng.choice([1, 1, 2, ncols]))]
-            for nm, e in zip(names, enc_flags):
+            for ci, e in enumerate(enc_flags):
                 if e:
-                    keys[nm] = rng.choice(key_pool)
+                    keys[ci] = rng.choice(key_pool)
             if rng.random() < 0.5:
                 # the policy is in use for another table already
                 policy.add_column(ColDesc(ks, table + 'x', names[0]), key_pool[0], types[0][0])
-            for nm, t, ra in zip(names, types, reg_at):
+            for ci, (t, ra) in enumerate(zip(types, reg_at)):
                 if ra == -1:
-                    policy.add_column(ColDesc(ks, table, nm), keys[nm], t[0])
-            for nm, ra in zip(names, reg_at):
-                if policy.contains_column(ColDesc(ks, table, nm)) != (ra == -1) or policy.contains_column(ColDesc(ks + 'x', table, nm)):
-                    raise AssertionError("contains_column(%r) wrong" % nm)
+                    policy.add_column(cds[ci], keys[ci], t[0])
+            for cd, ra in zip(cds, reg_at):
+                if policy.contains_column(cd) != (ra == -1) or policy.contains_column(ColDesc(cd.ks + 'x', cd.table, cd.col)):
+                    raise AssertionError("contains_column(%r) wrong" % (cd,))
         except Exception as e:
             ctx.violation("policy-setup-raises", "configuring the policy raised %s: %s" % (type(e).__name__, e), {"types": types, "names": names})
             continue
         # bind metadata as the server reports it: the table column of an encrypted value is a blob, the policy knows the real type
-        cols = [ColumnMetadata(ks, table, nm, G.driver_type(('blob',) if (e and as_server) else t)) for nm, t, e in zip(names, types, enc_flags)]
+        bind_types = [('blob',) if (e and as_server) else t for t, e in zip(types, enc_flags)]
+        cols = [ColumnMetadata(cd.ks, cd.table, cd.col, G.driver_type(bt)) for cd, bt in zip(cds, bind_types)]
         # result metadata as the server reports it: encrypted columns are blobs
-        wire_cols = [(ks, table, nm, ('blob',) if e else t) for nm, t, e in zip(names, types, enc_flags)]
-        result_md = [(ks, table, nm, G.driver_type(('blob',) if e else t)) for nm, t, e in zip(names, types, enc_flags)]
-        prepared = PreparedStatement(cols, b'qid', None, 'INSERT ...', ks, pv, result_md, None, column_encryption_policy=policy)
+        wire_cols = [(cd.ks, cd.table, cd.col, ('blob',) if e else t) for cd, t, e in zip(cds, types, enc_flags)]
+        result_md = [(cd.ks, cd.table, cd.col, G.driver_type(('blob',) if e else t)) for cd, t, e in zip(cds, types, enc_flags)]
+        if rng.random() < 0.5:
+            prepared = PreparedStatement(cols, b'qid', None, 'INSERT ...', ks, pv, result_md, None, column_encryption_policy=policy)
+        else:
+            # the way Session.prepare gets there: a PREPARED body (with the global table spec when the markers share one table and
+            # the coin says so, with per-column keyspace/table otherwise) read by the real decoder, then from_message
+            try:
+                pbody = F.body_result_prepared(pv, b'qid', [(cd.ks, cd.table, cd.col, bt) for cd, bt in zip(cds, bind_types)], [], [],
+                                               result_metadata_id=b'rm' if pv >= 5 else None, bind_global=rng.random() < 0.6)
+                pmsg = ResultMessage.recv_body(io.BytesIO(pbody), pv, {}, None, None)
+                prepared = PreparedStatement.from_message(pmsg.query_id, pmsg.bind_metadata, pmsg.pk_indexes, Metadata(), 'BEGIN BATCH ...', ks, pv,
+                                                          result_md, pmsg.result_metadata_id, policy)
+            except Exception as e:
+                ctx.violation("prepare-raises", "decoding PREPARED / from_message raised %s: %s" % (type(e).__name__, e), wit0)
+                continue
+            ctx.count("statements_prepared_from_a_decoded_PREPARED_body")
+        if several_tables:
+            ctx.count("statements_with_markers_over_several_tables")
         rows_canon, rows_cells = [], []
         images = []          # (type, serialized plaintext) of every value generated for this result so far
         had_value = [False] * ncols
@@ -128,9 +159,9 @@ def run(ctx):
         for _r in range(nrows):
             canon, dvals, states = [], [], []
             try:
-                for nm, t, ra in zip(names, types, reg_at):
+                for ci, (t, ra) in enumerate(zip(types, reg_at)):
                     if ra == _r:
-                        policy.add_column(ColDesc(ks, table, nm), keys[nm], t[0])
+                        policy.add_column(cds[ci], keys[ci], t[0])
                         ctx.count("columns_registered_after_prepare")
             except Exception as e:
                 ctx.violation("policy-setup-raises", "add_column after prepare raised %s: %s" % (type(e).__name__, e), wit0)
@@ -192,7 +223,7 @@ def run(ctx):
                     pass
             wit = dict(wit0, row=[repr(v)[:80] for v in canon], states=states)
             ctx.case(repr((pv, [t[0] for t in types], enc_flags, [G.canon_key(t, v) for t, v in zip(types, canon)], states)), nontrivial=any(enc_flags))
-            arg = dict(zip(names, dvals)) if rng.random() < 0.4 else list(dvals)
+            arg = dict(zip(names, dvals)) if (rng.random() < 0.4 and len(set(names)) == ncols) else list(dvals)
             try:
                 bound = prepared.bind(arg) if rng.random() < 0.5 else BoundStatement(prepared).bind(arg)
             except Exception as e:
@@ -200,7 +231,8 @@ def run(ctx):
                 bad = True
                 break
             cells = []
-            for nm, t, e, v, st, bv in zip(names, types, enc_flags, canon, states, bound.values):
+            for ci, (nm, t, e, v, st, bv) in enumerate(zip(names, types, enc_flags, canon, states, bound.values)):
+                nm = "%s.%s.%s" % tuple(cds[ci])
                 if st == 'none':
                     if bv is not None:
                         ctx.violation("null-not-bound-as-null", "None bound for column %s became %r" % (nm, bv), wit)
@@ -222,6 +254,8 @@ def run(ctx):
                         bad = True
                     else:
                         ctx.count("plain_values_equal")
+                        if any(o != ci and names[o] == names[ci] and policy.contains_column(cds[o]) for o in range(ncols)):
+                            ctx.count("plain_values_of_columns_whose_name_is_registered_in_another_table_of_the_statement")
                     cells.append(bytes(bv))
                     continue
                 bvb = bytes(bv)
@@ -232,7 +266,7 @@ def run(ctx):
                     cells.append(bvb)
                     continue
                 try:
-                    used_iv, clear = independent_decrypt(keys[nm], bvb)
+                    used_iv, clear = independent_decrypt(keys[ci], bvb)
                 except Exception as ex:
                     ctx.violation("bound-bytes-not-decryptable", "column %s %s: bound bytes %s are not iv||AES-256-CBC(PKCS7(value)) under the column key: %s" % (
                         nm, t[0], bvb.hex()[:80], ex), dict(wit, column=nm, bound=bvb))
@@ -249,7 +283,9 @@ def run(ctx):
                 else:
                     ctx.count("encrypted_values_decrypt_to_reference")
                     ctx.count("encrypted_type:" + t[0])
-                    ra = reg_at[names.index(nm)]
+                    ra = reg_at[ci]
+                    if col_tab[ci] != col_tab[0]:
+                        ctx.count("encrypted_values_of_columns_outside_the_first_markers_table")
                     if ra == 0:
                         ctx.count("values_of_columns_registered_between_prepare_and_first_bind")
                     elif ra is not None and ra > 0:
@@ -267,9 +303,9 @@ def run(ctx):
         if rng.random() < 0.4:
             riv = bytes(rng.getrandbits(8) for _ in range(16)) if rng.random() < 0.5 else None
             reader = AES256ColumnEncryptionPolicy(iv=riv) if riv is not None else AES256ColumnEncryptionPolicy()
-            for nm, t, e in zip(names, types, enc_flags):
+            for ci, (t, e) in enumerate(zip(types, enc_flags)):
                 if e:
-                    reader.add_column(ColDesc(ks, table, nm), keys[nm], t[0])
+                    reader.add_column(cds[ci], keys[ci], t[0])
         hcount += 1
         handler = type('C39Handler%d' % hcount, (_ProtocolHandler,), {"column_encryption_policy": reader})
         if reader is not policy and any(enc_flags):
@@ -283,7 +319,7 @@ def run(ctx):
             ctx.count("results_with_identical_ciphertext_in_columns_of_different_types")
         # ---- the server's answer, decoded by the real handler with the policy
         no_md = rng.random() < 0.3
-        body = F.body_result_rows(pv, wire_cols, rows_cells, no_metadata=no_md, global_spec=rng.random() < 0.7)
+        body = F.body_result_rows(pv, wire_cols, rows_cells, no_metadata=no_md, global_spec=(not several_tables) and rng.random() < 0.7)
         null_in_encrypted = any(c is None and e for cells in rows_cells for c, e in zip(cells, enc_flags))
         wit = dict(wit0, rows=[[repr(v)[:60] for v in c] for c, _ in rows_canon], no_metadata=no_md)
         try:
@@ -293,7 +329,7 @@ def run(ctx):
             if null_in_encrypted and isinstance(e, DriverException) and 'Failed decoding result column' in str(e) and (
                     "'NoneType' object is not subscriptable" in str(e)):
                 col = str(e).split('"')[1] if '"' in str(e) else None
-                if col in keys and any(cells[names.index(col)] is None for cells in rows_cells):
+                if any(names[ci] == col and enc_flags[ci] and cells[ci] is None for cells in rows_cells for ci in range(ncols)):
                     mech = "null-in-encrypted-column-decrypt-raises"
             ctx.violation(mech, "decoding the rows raised %s: %s" % (type(e).__name__, str(e)[:250]), wit)
             continue
@@ -328,13 +364,13 @@ def run(ctx):
                 ctx.sample({"columns": wit0["columns"], "row": [repr(v)[:60] for v in rows_canon[0][0]], "bound": rows_cells[0]})
 
         # ---- the helper for simple statements must produce the same ciphertext layout
-        for nm, t, e, v in zip(names, types, enc_flags, rows_canon[0][0]):
+        for ci, (nm, t, e, v) in enumerate(zip(names, types, enc_flags, rows_canon[0][0])):
             if not e or v is None or rng.random() > 0.3:
                 continue
             dv = G.to_driver(rng, t, v)
             ctx.count("encode_and_encrypt_calls")
             try:
-                blob = policy.encode_and_encrypt(ColDesc(ks, table, nm), dv)
+                blob = policy.encode_and_encrypt(cds[ci], dv)
             except Exception as ex:
                 mech = "encode-and-encrypt-raises"
                 falsy = False
@@ -347,7 +383,7 @@ def run(ctx):
                 ctx.violation(mech, "encode_and_encrypt(%s %s, %r) raised %s: %s" % (nm, t[0], dv, type(ex).__name__, ex), dict(wit0, value=repr(dv)))
                 continue
             try:
-                _, clear = independent_decrypt(keys[nm], blob)
+                _, clear = independent_decrypt(keys[ci], blob)
             except Exception as ex:
                 ctx.violation("bound-bytes-not-decryptable", "encode_and_encrypt(%s): %s" % (nm, ex), dict(wit0, value=repr(dv)))
                 continue
@@ -362,7 +398,10 @@ def run(ctx):
           "nulls_bound_encrypted_column": 500, "encode_and_encrypt_equal": 300,
           "results_read_by_a_second_policy_object_with_its_own_iv": 200,
           "values_sharing_a_byte_image_with_a_value_of_another_type": 300,
-          "values_of_columns_registered_between_prepare_and_first_bind": 300, "values_of_columns_registered_between_two_binds": 150,
+          "values_of_columns_registered_between_prepare_and_first_bind": 300,
+          "statements_with_markers_over_several_tables": 1000, "statements_prepared_from_a_decoded_PREPARED_body": 1000,
+          "encrypted_values_of_columns_outside_the_first_markers_table": 500,
+          "plain_values_of_columns_whose_name_is_registered_in_another_table_of_the_statement": 100, "values_of_columns_registered_between_two_binds": 150,
           "results_with_identical_ciphertext_in_columns_of_different_types": 100}
     for t in TYPES:
         fl["encrypted_type:" + t] = 50
